@@ -2,7 +2,103 @@
 //! RESTORE ttl argument) on boundary values, structured near-integers and random bytes.
 use serde_json::json;
 use umharness::util::*;
-use undermoon::migration::scan_migration::pttl_to_restore_expire_time;
+use undermoon::migration::scan_migration::{pttl_to_restore_expire_time, ScanMigrationTask};
+use std::pin::Pin;
+use std::future::Future;
+use std::sync::{Arc, Mutex};
+use undermoon::common::cluster::{Range, RangeList, SlotRange, SlotRangeTag};
+use undermoon::common::config::AtomicMigrationConfig;
+use undermoon::migration::stats::MigrationStats;
+use undermoon::protocol::{BulkStr, OptionalMulti, RedisClient, RedisClientError, RedisClientFactory, Resp, RespVec};
+use undermoon::proxy::backend::CmdTask;
+use undermoon::proxy::command::{CommandError, CommandResult};
+use undermoon::proxy::slowlog::TaskEvent;
+
+/// Redis stand-in for the UMSYNC push path (`ScanMigrationTask::handle_sync_task`): answers PTTL and
+/// DUMP with scripted replies and records every RESTORE that reaches the destination.
+#[derive(Clone)]
+struct Script { pttl: RespVec, dump: RespVec, restores: Arc<Mutex<Vec<Vec<Vec<u8>>>>>, dels: Arc<Mutex<usize>> }
+struct FakeClient { script: Script }
+impl RedisClient for FakeClient {
+    fn execute<'s>(&'s mut self, command: OptionalMulti<Vec<Vec<u8>>>)
+        -> Pin<Box<dyn Future<Output = Result<OptionalMulti<RespVec>, RedisClientError>> + Send + 's>> {
+        let one = |sc: &Script, cmd: &Vec<Vec<u8>>| -> RespVec {
+            match cmd.first().map(|c| c.to_ascii_uppercase()).unwrap_or_default().as_slice() {
+                b"PTTL" => sc.pttl.clone(),
+                b"DUMP" => sc.dump.clone(),
+                b"RESTORE" => { sc.restores.lock().unwrap().push(cmd.clone()); Resp::Simple(b"OK".to_vec()) }
+                b"DEL" => { *sc.dels.lock().unwrap() += 1; Resp::Integer(b"1".to_vec()) }
+                _ => Resp::Error(b"ERR unknown".to_vec()),
+            }
+        };
+        let r = match &command {
+            OptionalMulti::Single(c) => OptionalMulti::Single(one(&self.script, c)),
+            OptionalMulti::Multi(cs) => OptionalMulti::Multi(cs.iter().map(|c| one(&self.script, c)).collect()),
+        };
+        Box::pin(async move { Ok(r) })
+    }
+}
+struct FakeFactory { script: Script }
+impl RedisClientFactory for FakeFactory {
+    type Client = FakeClient;
+    fn create_client<'s>(&'s self, _address: String)
+        -> Pin<Box<dyn Future<Output = Result<FakeClient, RedisClientError>> + Send + 's>> {
+        let c = FakeClient { script: self.script.clone() };
+        Box::pin(async move { Ok(c) })
+    }
+}
+struct SyncTask { key: Vec<u8>, reply: Arc<Mutex<Option<String>>> }
+impl CmdTask for SyncTask {
+    type Pkt = RespVec; type TaskType = u64; type Context = u32;
+    fn get_key(&self) -> Option<&[u8]> { Some(&self.key) }
+    fn get_slot(&self) -> Option<usize> { None }
+    fn set_result(self, _r: CommandResult<RespVec>) {}
+    fn get_packet(&self) -> RespVec { Resp::Simple(vec![]) }
+    fn get_type(&self) -> u64 { 0 }
+    fn get_context(&self) -> u32 { 0 }
+    fn set_resp_result(self, result: Result<RespVec, CommandError>) where Self: Sized {
+        let s = match result { Ok(Resp::Simple(_)) => "ok".to_string(), Ok(Resp::Error(_)) => "error".to_string(), Ok(_) => "other".to_string(), Err(_) => "cmderr".to_string() };
+        *self.reply.lock().unwrap() = Some(s);
+    }
+    fn log_event(&mut self, _e: TaskEvent) {}
+}
+
+fn reply_of(tok: &str) -> Option<RespVec> {
+    // i:<hex> integer, b:<hex> bulk, n nil bulk, e error, s simple, a empty array
+    let mut it = tok.splitn(2, ':');
+    match (it.next()?, it.next()) {
+        ("i", Some(h)) => Some(Resp::Integer(unhex(h)?)),
+        ("b", Some(h)) => Some(Resp::Bulk(BulkStr::Str(unhex(h)?))),
+        ("n", _) => Some(Resp::Bulk(BulkStr::Nil)),
+        ("e", _) => Some(Resp::Error(b"ERR x".to_vec())),
+        ("s", _) => Some(Resp::Simple(b"OK".to_vec())),
+        ("a", _) => Some(Resp::Arr(undermoon::protocol::Array::Arr(vec![]))),
+        _ => None,
+    }
+}
+
+/// run the real UMSYNC push path once; observable: `skip` | `restore <ttl> <data>` | `error`
+fn run_sync_path(rt: &tokio::runtime::Runtime, pttl: RespVec, dump: RespVec) -> String {
+    let script = Script { pttl, dump, restores: Arc::new(Mutex::new(vec![])), dels: Arc::new(Mutex::new(0)) };
+    let factory = Arc::new(FakeFactory { script: script.clone() });
+    let slot_range = SlotRange { range_list: RangeList::new(vec![Range(0, 16383)]), tag: SlotRangeTag::None };
+    let reply = Arc::new(Mutex::new(None));
+    let r2 = reply.clone();
+    rt.block_on(async move {
+        let task: ScanMigrationTask<SyncTask, FakeFactory> = ScanMigrationTask::new(
+            "src:1".to_string(), "dst:1".to_string(), slot_range, factory,
+            Arc::new(AtomicMigrationConfig::default()), Arc::new(MigrationStats::default()));
+        task.handle_sync_task(SyncTask { key: b"k".to_vec(), reply: r2 }).await;
+    });
+    let restores = script.restores.lock().unwrap().clone();
+    let rep = reply.lock().unwrap().clone().unwrap_or_else(|| "none".to_string());
+    match (restores.len(), rep.as_str()) {
+        (0, "ok") => "skip".to_string(),
+        (1, "ok") => { let c = &restores[0]; format!("restore {} {}", hex(c.get(2).map(|v| v.as_slice()).unwrap_or(b"?")), hex(c.get(3).map(|v| v.as_slice()).unwrap_or(b"?"))) }
+        (0, "error") => "error".to_string(),
+        (n, r) => format!("unexpected restores={} reply={}", n, r),
+    }
+}
 
 fn gen_input(rng: &mut Rng, st: &mut Stats) -> Vec<u8> {
     let bounds: [i128; 14] = [
@@ -77,6 +173,44 @@ fn main() {
         if let Some((what, finding)) = oracle(&inp, &out) {
             let c = s.cases;
             s.stats.oracle_failure(c, what, finding, vec![op]);
+        }
+    }
+    // ---- stream 2: the real UMSYNC push path (produce_entries + forward_entries) ----------------------
+    let rt = tokio::runtime::Builder::new_current_thread().enable_all().build().expect("rt");
+    let mut sync_ops: Vec<(String, String)> = vec![];
+    if let Some(p) = &args.replay {
+        for l in read_lines(p) {
+            let t: Vec<&str> = l.split(' ').collect();
+            if let ["sync", a, b] = t.as_slice() { sync_ops.push((a.to_string(), b.to_string())); }
+        }
+    } else {
+        let pttls: Vec<String> = ["0", "1", "-1", "-2", "-3", "1500", "9223372036854775807", "x", ""].iter().map(|t| format!("i:{}", hex(t.as_bytes()))).collect();
+        let others = ["n", "e", "s", "a", "b:6162"];
+        let dumps = ["b:64756d70", "b:-", "n", "e", "s", "i:31"];
+        for p in pttls.iter().map(|s| s.as_str()).chain(others.iter().cloned()) { for d in dumps.iter() { sync_ops.push((p.to_string(), d.to_string())); } }
+        let n = if args.thorough { 3000 } else { 300 };
+        for _ in 0..n {
+            let v = gen_input(&mut rng, &mut s.stats);
+            let d = if rng.chance(5, 6) { format!("b:{}", { let k = rng.range(0, 6) as usize; hex(&rng.bytes(k)) }) } else { (*rng.pick(&dumps)).to_string() };
+            sync_ops.push((format!("i:{}", hex(&v)), d));
+        }
+    }
+    for (p, d) in sync_ops {
+        if let (Some(pr), Some(dr)) = (reply_of(&p), reply_of(&d)) {
+            let obs = run_sync_path(&rt, pr.clone(), dr.clone());
+            let op = format!("sync {} {}", p, d);
+            s.stats.count(&format!("sync.{}", obs.split(' ').next().unwrap_or("?")));
+            // oracle: an expiring key (PTTL n >= 0, canonical) with a dump must be restored with 1 <= ttl <= max(n,1);
+            // PTTL -1 with ttl 0; PTTL -2 never restored
+            if let (Resp::Integer(pb), Resp::Bulk(BulkStr::Str(_))) = (&pr, &dr) {
+                if let Ok(txt) = std::str::from_utf8(pb) { if let Ok(n) = txt.parse::<i64>() { if n.to_string() == txt {
+                    let ttl: Option<i64> = obs.strip_prefix("restore ").and_then(|r| r.split(' ').next()).and_then(unhex).and_then(|b| String::from_utf8(b).ok()).and_then(|t| t.parse().ok());
+                    let bad = match n { -2 => obs != "skip", -1 => ttl != Some(0), n if n >= 0 => !matches!(ttl, Some(t) if t >= 1 && t <= n.max(1)), _ => false };
+                    if bad { let c = s.cases; s.stats.oracle_failure(c, &format!("UMSYNC path: PTTL {} with a dump gives {}", n, obs), if n == 0 { "F9" } else { "" }, vec![op.clone()]); }
+                    if n >= 0 { s.stats.nontrivial_case(&op); }
+                } } }
+            }
+            s.op(&op, &obs);
         }
     }
     s.finish("ttl", "inputs: corpus + 8 generator classes (boundaries of i64 +-2, signs, long digit strings, mutated ints, random bytes); non-trivial = the ttl is kept (a positive expiry is forwarded); distinct = distinct input bytes");
